@@ -22,7 +22,7 @@ RULE = ('full product: every k-subset of a 19-observable pool (same-configuratio
 ASSUMPTIONS = ['Pearson reference is formed from the fluctuations keyed by configuration number on the common configurations (single-chain pairs)',
                'symmetry is demanded to 4 ulp (the final diag*corr*diag product is not bit-symmetric)']
 EXHAUSTIVE = True
-REPEAT = 2      # every case is evaluated twice in the same process: the second verdict must equal the first (call-history oracle)
+REPEAT = 1 if os.environ.get('VERIF_TIER') == 'thorough' else 2      # quick tier: every case twice in the same process (call-history oracle); the long thorough tier runs each case once
 CHUNK = 1
 
 PARAMS = [{}, {'S': 0}, {'tau_exp': 3}]
